@@ -169,6 +169,8 @@ func runRewriteKind(c *core.Ctx) []core.Obligation {
 						b.addP(props, core.Violation, key, c.InstrPos(ci), fmt.Sprintf("a template value for a %s field is written by %s as %s, but the codec of that kind reads %s: the rewritten message does not decode", k, f.Name(), wire, want.wire))
 					case zz != want.zigzag:
 						b.addP(props, core.Violation, key, c.InstrPos(ci), fmt.Sprintf("a template value for a %s field is written by %s with zig-zag=%v, but that kind is zig-zag encoded: %v (only sint32/sint64 are): the field decodes to a different value", k, f.Name(), zz, want.zigzag))
+					case k == "Sint32" && !zigzag32OK(f, nil):
+						b.addP(props, core.Violation, key, c.InstrPos(ci), fmt.Sprintf("a template value for a sint32 field is zig-zag encoded by %s at 64 bits from a value that is not sign-extended through int32: a negative value becomes a varint above 32 bits, which the codec rejects", f.Name()))
 					default:
 						b.addP(props, core.Discharged, key, c.InstrPos(ci), fmt.Sprintf("%s writes %s, zig-zag=%v", f.Name(), wire, zz))
 					}
@@ -218,6 +220,9 @@ func runRewriteKind(c *core.Ctx) []core.Obligation {
 			}
 			if zzDec != want.zigzag {
 				problems = append(problems, fmt.Sprintf("zig-zag decodes the input: %v, required: %v (the mask must be or'ed into the value, not into its zig-zag form)", zzDec, want.zigzag))
+			}
+			if k == "Sint32" && zzEnc && !zigzag32OK(fn, blocks) {
+				problems = append(problems, "zig-zag encodes the result at 64 bits from a value that is not sign-extended through int32: with an unsigned 32-bit mask type a negative field value becomes a varint above 32 bits, which the codec rejects")
 			}
 			if (want.wire == "fixed32") != le32 || (want.wire == "fixed64") != le64 {
 				problems = append(problems, fmt.Sprintf("reads the input as little-endian 32/64: %v/%v, kind is %s", le32, le64, want.wire))
@@ -307,6 +312,48 @@ func runRewriteKind(c *core.Ctx) []core.Obligation {
 		b.addP(props, core.Undecided, "rewritekind:type", "-", "proto.structTypeOf not found")
 	}
 	return b.out
+}
+
+// zigzag32OK: within the given blocks of fn (all when nil), a sint32 value is zig-zag encoded at
+// 32 bits: by encodeZigZag32, or by encodeZigZag64 applied to a value converted from int32.
+func zigzag32OK(fn *ssa.Function, blocks map[*ssa.BasicBlock]bool) bool {
+	ok := true
+	for _, blk := range fn.Blocks {
+		if blocks != nil && !blocks[blk] {
+			continue
+		}
+		for _, in := range blk.Instrs {
+			call, isCall := in.(*ssa.Call)
+			if !isCall {
+				continue
+			}
+			f := staticCallee(call.Common())
+			if f == nil || f.Name() != "encodeZigZag64" || len(call.Call.Args) != 1 {
+				continue
+			}
+			v := call.Call.Args[0]
+			through32 := false
+			for i := 0; i < 6; i++ {
+				if bt, isB := v.Type().Underlying().(*types.Basic); isB && bt.Kind() == types.Int32 {
+					through32 = true
+					break
+				}
+				switch x := v.(type) {
+				case *ssa.Convert:
+					v = x.X
+					continue
+				case *ssa.ChangeType:
+					v = x.X
+					continue
+				}
+				break
+			}
+			if !through32 {
+				ok = false
+			}
+		}
+	}
+	return ok
 }
 
 func fieldOfLoad2(in ssa.Instruction) (string, bool) {
